@@ -1709,6 +1709,8 @@ func Restrict(t *Term, pc *Term) *Term {
 				r = Select(args[0], args[1])
 			case t.Op == "uf:elemIndex":
 				r = ElemIndex(args[0], args[1])
+			case t.Op == "str.substr" && len(args) == 3:
+				r = StrSubstr(args[0], args[1], args[2])
 			default:
 				r = mk(t.Op, t.Sort, args...)
 			}
